@@ -19,6 +19,9 @@ CHECKS = {
  "C05": dict(engine="muxhist", cat="exploration", ref="3.4",
    text="Same histories as C04; per PID (PAT, PMT, every elementary stream between Add and Remove) consecutive payload packets must step by +1 mod 16 and adaptation-only packets repeat the value, across failed calls, retransmissions, removals and counter wrap (probes count wraps per PID class).",
    note="Trusted: reference header decoder; first counter value on a PID is unconstrained."),
+ "C06": dict(engine="lossy-channel", cat="fault_enumeration", ref="3.5",
+   text="Reference-multiplexed streams go through a PacketChannel; for half of the streams EVERY single-packet duplication position and EVERY single-packet deletion position is executed (exhaustive per stream), the other half get seeded multi-fault plans (loss bursts up to 14 per PID, duplicates of first/middle/last/single packets, duplicates delayed behind other PIDs, dup+loss), some streams carrying PES payloads full of start-code patterns. Against the fault-free baseline: a duplicate leaves PES PIDs identical and removes nothing on PSI PIDs (extra deliveries must repeat baseline data); after loss every delivered datum equals a baseline datum in order, other PIDs are identical, and only units that lost a packet or precede a gap may be missing. Streams are sampled; fault positions per stream are enumerated.",
+   note="Trusted: reference multiplexer and the per-packet unit bookkeeping. Scope: duplicates are byte-identical and immediate on their PID; <=14 consecutive losses per PID with a later surviving packet (15 losses repeat the counter = a duplicate by definition)."),
  "C17": dict(engine="muxhist", cat="exploration", ref="3.4",
    text="Same histories; refinement against the MuxModel: tables before the first unit, automatic PAT+PMT exactly when the accepted-call count reaches the period or RAI on the PCR PID, nowhere else except explicit WriteTables; PMT content = model stream list in insertion order with type/descriptors/PCR PID; PAT maps program 1 to the PMT PID; automatic PIDs unique and outside reserved ranges; version +1 mod 32 iff content changed.",
    note="Trusted: MuxModel transition rules (DESIGN App. A). Calls rejected for an invalid argument may or may not count towards the period (both accepted)."),
